@@ -15,7 +15,7 @@ THEOREMS = ["lookup_deep", "C15_reachable", "loop_collect", "mem_collect", "anc_
             "C15_range_cut", "C15_inside_kept", "C15_kept_near", "C15_2d", "C15_resolution", "lazy_collect",
             "C15_nodes_paged", "loop_succeeds", "C15_nodes", "groupNodes_spec", "C15_fetch"]
 
-WATCHDOG_S = 3
+WATCHDOG_S = 8
 
 
 class Watchdog(Exception):
